@@ -266,7 +266,8 @@ partial def loop (h : IO.FS.Stream) (out : IO.FS.Stream) (st : St) : IO Unit := 
     let seg := (splitLines bytes).foldl (stepLine env st.cfg st.now) st.seg
     loop h out { st with seg }
   | ["line"] => loop h out { st with seg := (splitLines []).foldl (stepLine env st.cfg st.now) st.seg }
-  | ["end"] =>
+  | ["end"] | ["endnolf"] =>
+    -- "endnolf": the file ends without a line feed - the last piece is a line all the same (`splitLines`)
     out.putStrLn ("counts " ++ String.intercalate " " (st.seg.dfCount.map fun kc => "DF" ++ toString kc.1 ++ ":" ++ toString kc.2))
     loop h out { st with table := st.seg.table }
   | ["tcp", script] =>
